@@ -589,12 +589,21 @@ pub fn gen_gadget_pairs(r: &mut Rng, pool: PhasePool, var_prob: f64) -> DDesc {
 /// spiders: colours {Z,X}, phases from `phases`, pairwise edges {none,N,H}, and `nb` in
 /// 0..=2 boundaries each attached to a spider with N or H (or, if ns = 0, a bare wire).
 /// Returns None when index is out of range. The space size is given by `tiny_space`.
-pub const TINY_PHASES: [(i64, i64); 5] = [(0, 1), (1, 4), (1, 2), (1, 1), (-1, 2)];
+/// the first five are used for three spiders; up to two spiders run over all eight multiples of pi/4
+pub const TINY_PHASES: [(i64, i64); 8] = [(0, 1), (1, 4), (1, 2), (1, 1), (-1, 2), (3, 4), (-1, 4), (-3, 4)];
+
+fn tiny_nph(ns: usize) -> u64 {
+    if ns <= 2 {
+        8
+    } else {
+        5
+    }
+}
 
 pub fn tiny_space(ns: usize) -> u64 {
-    // per spider: 2 colours * 5 phases; per pair: 3; boundaries: for nb in 0..=2:
+    // per spider: 2 colours * 8 phases (5 for three spiders); per pair: 3; boundaries: for nb in 0..=2:
     //   each boundary: ns choices * 2 edge kinds ; io split: each boundary input or output (2^nb)
-    let sp = 10u64.pow(ns as u32);
+    let sp = (2 * tiny_nph(ns)).pow(ns as u32);
     let pairs = 3u64.pow((ns * ns.saturating_sub(1) / 2) as u32);
     let mut bsum = 0u64;
     for nb in 0..=2u32 {
@@ -614,8 +623,8 @@ pub fn tiny_diagram(ns: usize, mut index: u64) -> Option<DDesc> {
     for _ in 0..ns {
         let c = index % 2;
         index /= 2;
-        let p = (index % 5) as usize;
-        index /= 5;
+        let p = (index % tiny_nph(ns)) as usize;
+        index /= tiny_nph(ns);
         verts.push(DV { kind: if c == 0 { VK::Z } else { VK::X }, ph: TINY_PHASES[p], vars: vec![] });
     }
     let mut edges = vec![];
